@@ -21,6 +21,7 @@ macro_rules! dispatch {
             "C06" => $f(&props::c06::prop(), $($arg),*),
             "C07" => $f(&props::c07::prop(), $($arg),*),
             "C08" => $f(&props::c08::prop(), $($arg),*),
+            "C09" => $f(&props::c09::prop(), $($arg),*),
             other => {
                 eprintln!("unknown property {}", other);
                 2
